@@ -158,10 +158,23 @@ func Install(w *World) { cur = w }
 //go:norace
 func Active() bool { return cur != nil }
 
+// runStart holds what splice rule R9 registered: functions that make the
+// package-level channels of the system under test again.
+var runStart []func()
+
+// OnRunStart registers f to be called inside the bubble at the start of every
+// run. Called from init functions only.
+//
+//go:norace
+func OnRunStart(f func()) { runStart = append(runStart, f) }
+
 // NewWorld must be called inside the bubble.
 //
 //go:norace
 func NewWorld() *World {
+	for i := 0; i < len(runStart); i++ {
+		runStart[i]()
+	}
 	w := &World{}
 	w.gids = make([]gidSlot, 1024)
 	w.Wake = make(chan struct{}, 1)
